@@ -68,6 +68,7 @@ type Contract struct {
 	pkg         *packages.Package
 	MayPanic    bool
 	File        string
+	InlineCalls map[string]int // callee name -> unroll bound (0: callee loops need contracts)
 }
 
 type rawClause struct {
@@ -310,8 +311,9 @@ func (w *World) loopsOf(fn *ssa.Function) *fnLoops {
 		fl.list = append(fl.list, li)
 	}
 	sort.Slice(fl.list, func(i, j int) bool { return fl.list[i].header.Index < fl.list[j].header.Index })
-	// source order of loop statements
+	// source order of loop statements; goto-loops are matched through their label
 	var astLoops []token.Pos
+	labels := map[string]token.Pos{}
 	if syn := fn.Syntax(); syn != nil {
 		var body *ast.BlockStmt
 		switch s := syn.(type) {
@@ -329,17 +331,33 @@ func (w *World) loopsOf(fn *ssa.Function) *fnLoops {
 					astLoops = append(astLoops, x.Body.Lbrace+1)
 				case *ast.RangeStmt:
 					astLoops = append(astLoops, x.Body.Lbrace+1)
+				case *ast.LabeledStmt:
+					labels[x.Label.Name] = x.Stmt.End()
 				}
 				return true
 			})
 		}
 	}
+	{
+		// structured loops in header order <-> for/range statements in source order
+		var structured []*loopInfo
+		for _, li := range fl.list {
+			c := li.header.Comment
+			if strings.HasPrefix(c, "for.") || strings.HasPrefix(c, "range") {
+				structured = append(structured, li)
+			} else if pos, ok := labels[c]; ok {
+				li.bodyPos = pos
+			}
+		}
+		if len(structured) == len(astLoops) {
+			for i, li := range structured {
+				li.bodyPos = astLoops[i]
+			}
+		}
+	}
 	// order SSA loops by the source position of the header's first positioned instruction when possible
 	for i, li := range fl.list {
 		li.ordinal = i + 1
-		if len(astLoops) == len(fl.list) {
-			li.bodyPos = astLoops[i]
-		}
 		// cells stored inside the loop
 		seen := map[*ssa.Alloc]bool{}
 		for b := range li.blocks {
@@ -355,12 +373,6 @@ func (w *World) loopsOf(fn *ssa.Function) *fnLoops {
 		sort.Slice(li.cells, func(a, b int) bool { return li.cells[a].Pos() < li.cells[b].Pos() || (li.cells[a].Pos() == li.cells[b].Pos() && li.cells[a].Name() < li.cells[b].Name()) })
 	}
 	fl.n = len(fl.list)
-	if len(astLoops) != len(fl.list) {
-		fl.n = len(fl.list)
-		for _, li := range fl.list {
-			li.bodyPos = token.NoPos
-		}
-	}
 	return fl
 }
 
@@ -405,7 +417,7 @@ func (w *World) cellFor(fn *ssa.Function, v *types.Var) *ssa.Alloc {
 
 // ---- contract files
 
-var kwRe = regexp.MustCompile(`^(func|extern|lemma|requires|ensures|modifies|invariant|decreases|loop|nopanic|pure|inline|opaque|trusted|property|ghost_set|at|const_global|ghost_global|may_panic)\b`)
+var kwRe = regexp.MustCompile(`^(inline_call|func|extern|lemma|requires|ensures|modifies|invariant|decreases|loop|nopanic|pure|inline|opaque|trusted|property|ghost_set|at|const_global|ghost_global|may_panic)\b`)
 
 func (w *World) parseContracts(p *packages.Package) error {
 	for i, f := range p.Syntax {
@@ -476,6 +488,20 @@ func (w *World) parseContracts(p *packages.Package) error {
 						return fmt.Errorf("%s: bad loop ordinal", where)
 					}
 					curLoop = n
+					last = nil
+				case "inline_call":
+					// inline_call <callee-name> [unroll N]
+					f := strings.Fields(rest)
+					n := 0
+					if len(f) == 3 && f[1] == "unroll" {
+						n, _ = strconv.Atoi(f[2])
+					}
+					if cur.InlineCalls == nil {
+						cur.InlineCalls = map[string]int{}
+					}
+					if len(f) > 0 {
+						cur.InlineCalls[f[0]] = n
+					}
 					last = nil
 				case "nopanic":
 					cur.NoPanic = true
@@ -971,4 +997,20 @@ func topIndex(s, sep string) int {
 		}
 	}
 	return -1
+}
+
+// globalHasInit reports whether the package initialiser stores a value into g.
+func (w *World) globalHasInit(g *ssa.Global) bool {
+	init := g.Pkg.Func("init")
+	if init == nil {
+		return false
+	}
+	for _, b := range init.Blocks {
+		for _, in := range b.Instrs {
+			if st, ok := in.(*ssa.Store); ok && st.Addr == ssa.Value(g) {
+				return true
+			}
+		}
+	}
+	return false
 }
